@@ -979,13 +979,6 @@ impl Reader {
             None => SequenceNumberSet::new_empty(writer_proxy.all_ackable_before()),
           };
 
-          let response_ack_nack = AckNack {
-            reader_id,
-            writer_id: heartbeat.writer_id,
-            reader_sn_state,
-            count: writer_proxy.next_ack_nack_sequence_number(),
-          };
-
           // Sanity check
           //
           // Wrong. This sanity check is invalid. The condition
@@ -1035,6 +1028,15 @@ impl Reader {
               // that this SN is really partially (and not fully) received.
             }
           }
+
+          // The NACKFRAGs go out before the ACKNACK and share its counter, so the ACKNACK
+          // takes its count after them: counts must grow in the order the submessages are sent.
+          let response_ack_nack = AckNack {
+            reader_id,
+            writer_id: heartbeat.writer_id,
+            reader_sn_state,
+            count: writer_proxy.next_ack_nack_sequence_number(),
+          };
 
           if !nackfrags.is_empty() {
             this.send_nackfrags_to(
